@@ -122,7 +122,7 @@ func c06Grammar(res *explore.Result, g *gram.Grammar, inputs [][]byte, verbose b
 			}
 			w := mapInput(w0)
 			n := len(w)
-			c := Case{Placement: impl.Placement, Grammar: gs, Input: string(w0)}
+			c := Case{Placement: impl.Placement, Prior: b.MemoBefore, Grammar: gs, Input: string(w0)}
 			for k := range failed {
 				delete(failed, k)
 			}
